@@ -19,56 +19,9 @@ Theorems here are about the machinery that executes:
   reference accumulator on the whole tensor when the receptive-field equations of C10 hold.
 -/
 namespace VelaVerif.Props.C01
-open VelaVerif.Requant VelaVerif.TfliteRef VelaVerif.Lemmas.Sem
+open VelaVerif.Requant VelaVerif.TfliteRef VelaVerif.Lemmas.Sem VelaVerif.Tiling
 
 /-! ## Tiling -/
-
-/-- `op` is local with receptive field `[lo y, hi y)`: output row `y` depends only on those input rows -/
-def IsLocal {α β : Type} (op : (Nat → α) → Nat → β) (lo hi : Nat → Nat) : Prop :=
-  ∀ (y : Nat) (m m' : Nat → α), (∀ r, lo y ≤ r → r < hi y → m r = m' r) → op m y = op m' y
-
-/-- a stripe: the output rows `[first, last)` computed from the memory `mem` the stripe sees -/
-structure Stripe (α : Type) where
-  first : Nat
-  last : Nat
-  mem : Nat → α
-
-def Stripe.covers {α : Type} (s : Stripe α) (y : Nat) : Prop := s.first ≤ y ∧ y < s.last
-
-/-- executing one stripe overwrites its output rows -/
-def stepStripe {α β : Type} (op : (Nat → α) → Nat → β) (s : Stripe α) (out : Nat → β) : Nat → β :=
-  fun y => if s.first ≤ y ∧ y < s.last then op s.mem y else out y
-
-def execStripes {α β : Type} (op : (Nat → α) → Nat → β) : List (Stripe α) → (Nat → β) → Nat → β
-  | [], out => out
-  | s :: rest, out => execStripes op rest (stepStripe op s out)
-
-/-- the memory of a stripe agrees with the full input on the receptive field of every row it computes -/
-def Stripe.sees {α : Type} (s : Stripe α) (inp : Nat → α) (lo hi : Nat → Nat) : Prop :=
-  ∀ y, s.covers y → ∀ r, lo y ≤ r → r < hi y → s.mem r = inp r
-
-theorem execStripes_row {α β : Type} (op : (Nat → α) → Nat → β) (lo hi : Nat → Nat) (hloc : IsLocal op lo hi)
-    (inp : Nat → α) (l : List (Stripe α)) (hsee : ∀ s ∈ l, s.sees inp lo hi) (y : Nat) :
-    ∀ out : Nat → β, (out y = op inp y ∨ ∃ s ∈ l, s.covers y) → execStripes op l out y = op inp y := by
-  induction l with
-  | nil =>
-    intro out h
-    rcases h with h | ⟨s, hs, _⟩
-    · exact h
-    · cases hs
-  | cons s rest ih =>
-    intro out h
-    simp only [execStripes]
-    apply ih (fun t ht => hsee t (List.mem_cons_of_mem s ht))
-    by_cases hc : s.first ≤ y ∧ y < s.last
-    · left
-      simp only [stepStripe, hc, and_self, if_true]
-      exact hloc y s.mem inp (fun r h1 h2 => hsee s (List.mem_cons_self) y hc r h1 h2)
-    · rcases h with h | ⟨t, ht, hcov⟩
-      · left; simp only [stepStripe, hc, if_false]; exact h
-      · rcases List.mem_cons.mp ht with rfl | ht'
-        · exact absurd hcov hc
-        · right; exact ⟨t, ht', hcov⟩
 
 /-- **Tiling preserves semantics.** For a local operator, executing any list of stripes that cover the
     output rows `[0, H)`, each on a memory that agrees with the full input on the stripe's receptive field,
